@@ -165,7 +165,7 @@ func (in *Interp) operandString(fr *frame, arg iface) (value, bool) {
 			}
 		}
 	case Dec:
-		if v.T == nil {
+		if !v.isSym() {
 			return v.C.String(), true
 		}
 		return &SymStr{E: []value{&Tok{D: v, Fixed: -1}}}, true
